@@ -76,6 +76,8 @@ def check(ctx):
     ctx.rule("R3", "each registered converter is paired with its confirmed detyper (and validator family) in the Var registry and ENSURERS", floor=25)
     ctx.rule("R4", "detype stores a string for a variable only past the three skips: DELETE_VAR mask, no detyper, None result", floor=3)
     ctx.rule("R5", "the child's environment is computed inside the per-command swap, at launch time", floor=2)
+    ctx.rule("R8", "the memoised mapping itself never leaves detype(): every return is a fresh mapping (callers edit what they get)", floor=2)
+    ctx.rule("R7", "every stage owns its overlay: a mapping stored into a spec's `env` inside a loop over stages is created in that iteration", floor=1)
     ctx.rule("R6", "the per-command overlay is normalised for every shape of value: an element of a list value is read only where the guard shows it exists", floor=1)
 
     mod = ctx.repo.module(EN)
@@ -188,7 +190,8 @@ def check(ctx):
             for d in gdefs.get(n.value.id, []):
                 if d.value is not None and any(isinstance(x, ast.Subscript) and unparse(x.value) == "self._d" for x in ast.walk(d.value)):
                     escapes.append(n)
-    serves_memo = any(isinstance(n, ast.Return) and unparse(n.value) == "self._detyped" for n in walk_local(dt))
+    # the memo is served (as it is or as a copy of its content: either way its content is trusted)
+    serves_memo = any(isinstance(n, ast.Return) and n.value is not None and any(isinstance(x, ast.Attribute) and unparse(x) == "self._detyped" for x in ast.walk(n.value)) for n in walk_local(dt))
     copies = any(isinstance(n, ast.Call) and call_name(n) in ("copy.copy", "copy.deepcopy", "list", "tuple") for r in escapes for n in ast.walk(r))
     revalidates = any("_mutable" in unparse(n) or "version" in unparse(n) for n in ast.walk(dt) if isinstance(n, ast.If))
     ctx.ob(
@@ -313,11 +316,12 @@ def check(ctx):
             idx = None
             if isinstance(it, ast.Call) and call_name(it) == "enumerate" and it.args and unparse(it.args[0]) == cmds_p and isinstance(tgt, ast.Tuple) and isinstance(tgt.elts[0], ast.Name):
                 idx = tgt.elts[0].id
-            # the overlay expression, through one local
+            # the overlay expression, through one local (which may be bound in the arms of an if/else: `envs[i]` / None)
             ev = env_e
-            if isinstance(ev, ast.Name) and len(cdefs.get(ev.id, [])) == 1 and cdefs[ev.id][0].kind == "assign":
-                ev = cdefs[ev.id][0].value
-            subs = [x for x in ast.walk(ev) if isinstance(x, ast.Subscript) and unparse(x.value) == "envs"]
+            arms = [a_ for a_ in value_arms(cdefs, ev) if not (isinstance(a_, ast.Constant) and a_.value is None)]
+            subs = [x for a_ in arms for x in ast.walk(a_) if isinstance(x, ast.Subscript) and unparse(x.value) == "envs"]
+            if len(arms) == 1:
+                ev = arms[0]
             if idx is not None and subs and all(isinstance(x.slice, ast.Name) and x.slice.id == idx for x in subs) and not [d for d in cdefs.get(idx, []) if d.stmt is not loop and lexically_inside(d.stmt, loop)] and lexically_inside(c, loop):
                 ok, why = True, None
             elif idx is None and isinstance(it, ast.Call) and call_name(it) == "zip" and [unparse(a_) for a_ in it.args[:2]] == [cmds_p, "envs"] and isinstance(env_e, ast.Name) and any(isinstance(x, ast.Name) and x.id == env_e.id for x in ast.walk(tgt)):
@@ -326,7 +330,75 @@ def check(ctx):
                 why = f"overlay `{short(ev, 50)}` is not indexed by the position of the command in `{cmds_p}`" + (f" (`{idx}`)" if idx else " (no enumerate index)")
         ctx.ob("R5", f"{SP}:cmds_to_specs", f"`{short(c, 60)}`: the per-command overlay is taken from `envs` at the command's own position in the command list", ok, key="cmds_to_specs|overlay-misaligned", where=loc(c), detail=why)
 
+    _memo_escape(ctx, meths)
     _overlay_index_safety(ctx, sp)
+    _overlay_ownership(ctx, sp)
+
+
+def _memo_escape(ctx, meths):
+    """Several callers add keys to the mapping detype() gives them (GIT_OPTIONAL_LOCKS, HGRCPATH, SHLVL, PROMPT) before
+    handing it to a child.  If that mapping is the memo, every later child gets those keys too."""
+    dt = meths.get("detype")
+    if dt is None:
+        raise AnchorMissing(f"{EN}:Env.detype")
+    st = f"{EN}:Env.detype"
+    defs = df.all_defs(dt)
+    memo_stores = [n for n in walk_local(dt) if isinstance(n, ast.Assign) and any(unparse(t) == "self._detyped" for t in n.targets)]
+
+    def fresh(e):
+        if isinstance(e, ast.Call) and ((call_name(e) == "dict" and len(e.args) <= 1) or (isinstance(e.func, ast.Attribute) and e.func.attr == "copy" and not e.args)):
+            return True
+        if isinstance(e, ast.Dict) or isinstance(e, ast.DictComp):
+            return True
+        return False
+
+    rets = [n for n in walk_local(dt) if isinstance(n, ast.Return) and n.value is not None]
+    if len(rets) < 2:
+        raise AnalysisError(f"{st}: expected the memo-hit return and the rebuilt return, found {len(rets)}")
+    cfg = CFG(dt)
+    for r in rets:
+        v = r.value
+        ok, why = True, None
+        if fresh(v):
+            pass
+        elif unparse(v) == "self._detyped":
+            ok, why = False, "returns the memo object itself"
+        elif isinstance(v, ast.Name):
+            # a local: it must not be the object stored as the memo on a path that reaches this return
+            sharing = [m for m in memo_stores if isinstance(m.value, ast.Name) and m.value.id == v.id]
+            after = cfg.reach([x for m in sharing for x in cfg.nodes_of(m)]) if sharing else set()
+            if any(x in after for x in cfg.nodes_of(r)):
+                ok, why = False, f"`{v.id}` is also stored as the memo (`self._detyped = {v.id}`) on a path to this return: the caller and the memo share one dict"
+            elif any(d.value is not None and unparse(d.value) == "self._detyped" for d in defs.get(v.id, [])):
+                ok, why = False, f"`{v.id}` is the memo object"
+        else:
+            ok, why = False, f"cannot show that `{short(v)}` is a fresh mapping"
+        ctx.ob("R8", st, f"`{short(r, 50)}` hands out a mapping of its own", ok, key=f"detype|memo-escapes|{short(v, 30)}", where=loc(r), detail=why)
+
+
+def _overlay_ownership(ctx, sp):
+    """SubprocSpec.env is edited in place later (run() adds __ALIAS_NAME, handlers may add keys): two stages must never
+    hold the same mapping.  In every loop, a value stored into `<stage>.env` must be built inside the iteration."""
+    n = 0
+    for q, fn in sp.functions():
+        defs = None
+        for loop in [x for x in walk_local(fn) if isinstance(x, (ast.For, ast.While))]:
+            for a in [x for b in loop.body for x in ast.walk(b) if isinstance(x, ast.Assign)]:
+                if not any(isinstance(t, ast.Attribute) and t.attr == "env" and unparse(t.value) != "XSH" for t in a.targets):
+                    continue
+                n += 1
+                v = a.value
+                ok, why = True, None
+                if isinstance(v, ast.Name):
+                    defs = defs or df.all_defs(fn)
+                    ds = defs.get(v.id, [])
+                    outside = [d for d in ds if not lexically_inside(d.stmt, loop) or d.stmt is loop]
+                    mutable = [d for d in outside if d.kind == "param" or (d.value is not None and not isinstance(d.value, ast.Constant))]
+                    if mutable and not (isinstance(loop, ast.For) and any(isinstance(x, ast.Name) and x.id == v.id for x in ast.walk(loop.target))):
+                        ok, why = False, f"`{v.id}` is bound once outside the loop and shared by every stage that takes it"
+                ctx.ob("R7", f"{SP}:{q}", f"`{short(a, 60)}`: the stored overlay is created in this iteration", ok, key=f"{q}|overlay-shared-across-stages", where=loc(a), detail=why)
+    if not n:
+        raise AnalysisError(f"{SP}: no per-stage overlay store inside a loop found (expected _set_specs_capture_always)")
 
 
 def _guard_context(node, stop):
@@ -448,4 +520,5 @@ META = {
     "the stage's own position in the command list; the overlay normaliser's indexed reads are guarded for every shape of value (non-list, lists of 0..n words). Value-level round-trips are not decided.",
     "note": "Decides the listed structural clauses, not the behaviour. The converter->detyper table is frozen from "
     "reading tools.py/environ.py; a converter the table has never seen is reported in the evidence, not failed.",
+    "more": "Also decided: the overlay's one-word unwrap indexes a value only where the guard implies the element exists for every shape of value; overlays stored in a loop over stages are created per iteration; Env.detype() never hands out its memoised mapping itself.",
 }
